@@ -32,12 +32,33 @@ def cache_reference(keys, inserts):
     return entries
 
 
+CLEAR = ('CLEAR', None)
+
+
 def cache_case(keys, inserts, lookup):
-    """run the real IndexedCache; returns None or a failure description"""
+    """run the real IndexedCache; `inserts` is a history of (binding, output) insertions and CLEAR markers; returns None or
+    a failure description"""
     from entity_query_language.cache_data import IndexedCache
     c = IndexedCache(list(keys))
+    live = []
+    flat_want = []
     for b, o in inserts:
-        c.insert({k: _mk(v) for k, v in b.items()}, o)
+        if (b, o) == CLEAR:
+            c.clear()
+            live, flat_want = [], []
+            continue
+        if b:
+            c.insert({k: _mk(v) for k, v in b.items()}, o)
+            live.append((b, o))
+        else:
+            c.insert({}, _mk(o))     # an empty binding goes to the flat store (how the registry of instances is kept)
+            flat_want.append(o)
+    history = inserts
+    inserts = live
+    flat_got = [getattr(v, 'value', v) for _, v in c.retrieve(None, from_index=False)]
+    if sorted(map(str, flat_got)) != sorted(map(str, set(flat_want))):
+        return {'what': 'flat', 'keys': list(keys), 'inserts': history, 'lookup': lookup, 'got': sorted(map(str, flat_got)),
+                'want': sorted(map(str, set(flat_want))), 'signature': {'kind': 'flat-store'}}
     entries = cache_reference(keys, inserts)
     stored = [b for b, _ in inserts if b]
     q = {k: _mk(v) for k, v in lookup.items()}
@@ -46,7 +67,7 @@ def cache_case(keys, inserts, lookup):
         want_cov = any(all(k in lookup and lookup[k] == v for k, v in b.items()) for b in stored)
         got_cov = c.check(dict(q))
         if bool(got_cov) != want_cov:
-            return {'what': 'check', 'keys': list(keys), 'inserts': inserts, 'lookup': lookup, 'got': bool(got_cov), 'want': want_cov}
+            return {'what': 'check', 'keys': list(keys), 'inserts': history, 'lookup': lookup, 'got': bool(got_cov), 'want': want_cov}
     # retrieval: every stored entry agreeing with the lookup on every key they share, each once, merged
     want, want_paths = [], {}
     for path, (b, o) in entries.items():
@@ -78,7 +99,7 @@ def cache_case(keys, inserts, lookup):
                 return False
             sig['every_missed_entry_is_shadowed_by_a_sibling_branch'] = all(shadowed(want_paths[m]) for m in missing)
             sig['nothing_extra'] = not (set(got) - set(want))
-        return {'what': 'retrieve', 'keys': list(keys), 'inserts': inserts, 'lookup': lookup, 'got': sorted(got), 'want': sorted(want),
+        return {'what': 'retrieve', 'keys': list(keys), 'inserts': history, 'lookup': lookup, 'got': sorted(got), 'want': sorted(want),
                 'signature': sig}
     return None
 
@@ -101,8 +122,11 @@ def standin_C20_cache(seed, args):
     t0 = time.time()
     exhaustive = True
     for k in range(0, max_inserts + 1):
-        for ins in itertools.product(nonempty, repeat=k):
-            inserts = [(b, f"o{i}") for i, b in enumerate(ins)]
+        for ins0 in itertools.product(bindings, repeat=k):
+          base = [(b, f"o{i}") for i, b in enumerate(ins0)]
+          # the same history with a clear() at every position (also after the last insertion), and without one
+          variants = [base] + [base[:j] + [CLEAR] + base[j:] for j in range(1, k + 1)]
+          for inserts in variants:
             for lookup in bindings:
                 n += 1
                 d = cache_case(keys, inserts, lookup)
@@ -112,12 +136,13 @@ def standin_C20_cache(seed, args):
                     per_sig[sk] = per_sig.get(sk, 0) + 1
                     if per_sig[sk] <= 3:       # a few witnesses per distinct kind of failure
                         failures.append(d)
-            if time.time() - t0 > budget:
-                exhaustive = False
-                break
+          if time.time() - t0 > budget:
+              exhaustive = False
+              break
         if not exhaustive:
             break
-    return {'evaluations': n, 'exhaustive': exhaustive, 'scope': f"{nkeys} keys, alphabet {alphabet}, <= {max_inserts} inserts, every lookup",
+    return {'evaluations': n, 'exhaustive': exhaustive,
+            'scope': f"{nkeys} keys, alphabet {alphabet}, <= {max_inserts} inserts, a clear() at every position or none, every lookup",
             'failures': failures, 'n_failures': sum(per_sig.values()), 'failures_by_signature': per_sig}
 
 
